@@ -772,6 +772,8 @@ inclGetLine(FILE *file)
 
 	bufStart(inclBuffer);
 	while ((c = osGetc(file)) != EOF) {
+		/* Lines are C strings: a NUL would end the text early. */
+		if (c == char0) c = ' ';
 		bufAdd1(inclBuffer, c);
 		if (c == '\n') break;
 	}
